@@ -63,7 +63,8 @@ def lex (s : String) : Option Tok :=
     match canonNat? (s.drop 1).toString with
     | some n => if n = 0 then none else some (.sint (-(n : Int)))
     | none => none
-  else if cs.any (fun c => c = '"' ∨ c = '(' ∨ c = ')' ∨ c = '+') ∨ (cs.head?.map Char.isDigit).getD false then none
+  else if cs.any (fun c => c = '"' ∨ c = '(' ∨ c = ')') ∨ (cs.head?.map Char.isDigit).getD false
+      ∨ ((s.startsWith "+" ∨ s.startsWith "-") ∧ ((cs.drop 1).head?.map Char.isDigit).getD false) then none
   else
     match genLabel? s with
     | some k => some (.lref k)
